@@ -26,6 +26,10 @@ type C12Block struct {
 	Var   string            `json:"var"`
 	Op    string            `json:"op"`
 	Model map[string]C12Val `json:"model"`
+	// Deep[k] = the properties of the object that property k refers to
+	Deep map[string]map[string]C12Val `json:"deep,omitempty"`
+	// Tokens[k] = how many times "k:" must at least appear when the whole object is printed
+	Tokens map[string]int `json:"tokens,omitempty"`
 }
 
 type C12Expect struct {
@@ -59,8 +63,23 @@ func (g *c12Gen) val() int         { g.nval++; return 100 + g.nval }
 
 // value draws a property value: mostly a unique number, sometimes nil (literal
 // or from a function that returns nothing), a boolean or a unique string.
-func (g *c12Gen) value() (string, C12Val) {
-	switch g.s.Int("valkind", 0, 9) {
+func (g *c12Gen) value() (string, C12Val) { return g.valueFor(0) }
+
+// valueFor draws a value to store into object target (0 = a new object): a
+// reference to an existing object is allowed when it cannot create a cycle.
+func (g *c12Gen) valueFor(target int) (string, C12Val) {
+	k := g.s.Int("valkind", 0, 11)
+	if k >= 10 {
+		if len(g.order) > 0 {
+			v := g.pickVar("refvar")
+			id := g.vars[v]
+			if target == 0 || !g.reaches(id, target) {
+				return v, C12Val{Ref: id}
+			}
+		}
+		k = 5
+	}
+	switch k {
 	case 0:
 		return "nil", C12Val{Text: "nil"}
 	case 1:
@@ -158,13 +177,34 @@ func (g *c12Gen) observe(op string) {
 		g.add(fmt.Sprintf("%s (%s i%d = 0; i%d < %d; i%d = i%d + 1) { %s ks%d[i%d]; %s vs%d[i%d]; }", KwFor, KwVar, t, t, len(g.heap[id]), t, t, KwPrint, t, t, KwPrint, t, t))
 		g.add(fmt.Sprintf("%s \"@N\";", KwPrint))
 		keys := sortedKeys(g.heap[id])
+		deep := map[string]map[string]C12Val{}
 		for _, k := range keys {
 			g.add(fmt.Sprintf("%s %s.%s;", KwPrint, v, k))
+			if r := g.heap[id][k].Ref; r > 0 {
+				// read every scalar property of the referenced object through this path
+				deep[k] = g.copyModel(r)
+				for _, ck := range sortedKeys(g.heap[r]) {
+					if g.heap[r][ck].Ref == 0 {
+						g.add(fmt.Sprintf("%s %s.%s.%s;", KwPrint, v, k, ck))
+					}
+				}
+			}
 		}
+		tokens := map[string]int{}
+		var count func(x int)
+		count = func(x int) {
+			for k, val := range g.heap[x] {
+				tokens[k]++
+				if val.Ref > 0 {
+					count(val.Ref)
+				}
+			}
+		}
+		count(id)
 		g.add(fmt.Sprintf("%s \"@P\";", KwPrint))
 		g.add(fmt.Sprintf("%s %s;", KwPrint, v))
 		g.add(fmt.Sprintf("%s \"@E\";", KwPrint))
-		g.blocks = append(g.blocks, C12Block{Step: g.step, Var: v, Op: op, Model: g.copyModel(id)})
+		g.blocks = append(g.blocks, C12Block{Step: g.step, Var: v, Op: op, Model: g.copyModel(id), Deep: deep, Tokens: tokens})
 	}
 }
 
@@ -198,131 +238,146 @@ func c12Program(s Src, maxOps int) (string, *C12Expect) {
 	mustFail := ""
 	failLine := 0
 	for g.step = 1; g.step <= nops; g.step++ {
-		kind := "literal"
+		// several mutations may happen between two observations: an observation
+		// (listing, reading, printing) is itself an operation that can refresh
+		// state inside the implementation
+		nmut := 1
 		if len(g.order) > 0 {
-			kind = Pick(s, "op", []string{"literal", "literal", "alias", "write-new", "write-existing", "write-existing", "delete", "delete", "fn-write", "fn-write-ret", "array-alias", "child", "child-write", "mk-twice", "fn-delete", "empty-literal", "read", "rewrite-literal"})
+			nmut = s.Int("nmut", 1, 3)
 		}
-		opName := kind
-		switch kind {
-		case "literal", "empty-literal", "rewrite-literal":
-			n := s.Int("nkeys", 0, 6)
-			if kind == "empty-literal" {
-				n = 0
+		var stepOps []string
+		for mi := 0; mi < nmut; mi++ {
+			kind := "literal"
+			if len(g.order) > 0 {
+				kind = Pick(s, "op", []string{"literal", "literal", "alias", "write-new", "write-existing", "write-existing", "delete", "delete", "fn-write", "fn-write-ret", "array-alias", "child", "child2", "child-write", "mk-twice", "fn-delete", "empty-literal", "read", "rewrite-literal"})
 			}
-			txt, m := g.literal(n)
-			id := g.newObj(m)
-			name := Pick(s, "var", varNames)
-			g.setVar(name, id, txt)
-		case "alias":
-			src := g.pickVar("src")
-			dst := Pick(s, "var", varNames)
-			if dst == src {
-				g.add(fmt.Sprintf("%s = %s;", dst, src))
-			} else {
-				g.setVar(dst, g.vars[src], src)
-			}
-		case "write-new", "write-existing":
-			v := g.pickVar("target")
-			id := g.vars[v]
-			var k string
-			ks := sortedKeys(g.heap[id])
-			if kind == "write-existing" && len(ks) > 0 {
-				k = Pick(s, "key", ks)
-			} else {
-				k = Pick(s, "key", c12Keys)
-			}
-			txt, val := g.value()
-			g.add(fmt.Sprintf("%s.%s = %s;", v, k, txt))
-			g.heap[id][k] = val
-		case "delete", "fn-delete":
-			v := g.pickVar("target")
-			id := g.vars[v]
-			ks := sortedKeys(g.heap[id])
-			if len(ks) == 0 {
-				opName = "noop"
-				g.add("// nothing to delete")
-				break
-			}
-			k := Pick(s, "key", ks)
-			if kind == "delete" {
-				g.add(fmt.Sprintf("%s(%s, \"%s\");", FnDelete, v, k))
-			} else {
-				g.add(fmt.Sprintf("del(%s, \"%s\");", v, k))
-			}
-			delete(g.heap[id], k)
-		case "fn-write":
-			v := g.pickVar("target")
-			txt, val := g.value()
-			g.add(fmt.Sprintf("wr1(%s, %s);", v, txt))
-			g.heap[g.vars[v]]["alpha"] = val
-		case "fn-write-ret":
-			v := g.pickVar("target")
-			dst := Pick(s, "var", varNames)
-			val := g.val()
-			id := g.vars[v]
-			g.heap[id]["delta"] = C12Val{Num: val}
-			if dst == v {
-				g.add(fmt.Sprintf("%s = wr2(%s, %d);", dst, v, val))
-			} else {
-				g.setVar(dst, id, fmt.Sprintf("wr2(%s, %d)", v, val))
-			}
-		case "array-alias":
-			a, b := g.pickVar("a"), g.pickVar("b")
-			g.tmp++
-			arr := fmt.Sprintf("arr%d", g.tmp)
-			g.add(fmt.Sprintf("%s %s = [%s, %s];", KwVar, arr, a, b))
-			idx := s.Int("idx", 0, 1)
-			tgt := []string{a, b}[idx]
-			k := Pick(s, "key", c12Keys)
-			val := g.val()
-			g.add(fmt.Sprintf("%s[%d].%s = %d;", arr, idx, k, val))
-			g.heap[g.vars[tgt]][k] = C12Val{Num: val}
-		case "child":
-			p, c := g.pickVar("parent"), g.pickVar("childv")
-			pid, cid := g.vars[p], g.vars[c]
-			if g.reaches(cid, pid) {
-				opName = "noop"
-				g.add("// would create a cycle")
-				break
-			}
-			g.add(fmt.Sprintf("%s.child = %s;", p, c))
-			g.heap[pid]["child"] = C12Val{Ref: cid}
-		case "child-write":
-			// write through a child reference if some object has one
-			var cands []string
-			for _, v := range g.order {
-				if c, ok := g.heap[g.vars[v]]["child"]; ok && c.Ref > 0 {
-					cands = append(cands, v)
+			opName := kind
+			switch kind {
+			case "literal", "empty-literal", "rewrite-literal":
+				n := s.Int("nkeys", 0, 6)
+				if kind == "empty-literal" {
+					n = 0
 				}
+				txt, m := g.literal(n)
+				id := g.newObj(m)
+				name := Pick(s, "var", varNames)
+				g.setVar(name, id, txt)
+			case "alias":
+				src := g.pickVar("src")
+				dst := Pick(s, "var", varNames)
+				if dst == src {
+					g.add(fmt.Sprintf("%s = %s;", dst, src))
+				} else {
+					g.setVar(dst, g.vars[src], src)
+				}
+			case "write-new", "write-existing":
+				v := g.pickVar("target")
+				id := g.vars[v]
+				var k string
+				ks := sortedKeys(g.heap[id])
+				if kind == "write-existing" && len(ks) > 0 {
+					k = Pick(s, "key", ks)
+				} else {
+					k = Pick(s, "key", c12Keys)
+				}
+				txt, val := g.valueFor(id)
+				g.add(fmt.Sprintf("%s.%s = %s;", v, k, txt))
+				g.heap[id][k] = val
+			case "delete", "fn-delete":
+				v := g.pickVar("target")
+				id := g.vars[v]
+				ks := sortedKeys(g.heap[id])
+				if len(ks) == 0 {
+					opName = "noop"
+					g.add("// nothing to delete")
+					break
+				}
+				k := Pick(s, "key", ks)
+				if kind == "delete" {
+					g.add(fmt.Sprintf("%s(%s, \"%s\");", FnDelete, v, k))
+				} else {
+					g.add(fmt.Sprintf("del(%s, \"%s\");", v, k))
+				}
+				delete(g.heap[id], k)
+			case "fn-write":
+				v := g.pickVar("target")
+				txt, val := g.valueFor(g.vars[v])
+				g.add(fmt.Sprintf("wr1(%s, %s);", v, txt))
+				g.heap[g.vars[v]]["alpha"] = val
+			case "fn-write-ret":
+				v := g.pickVar("target")
+				dst := Pick(s, "var", varNames)
+				val := g.val()
+				id := g.vars[v]
+				g.heap[id]["delta"] = C12Val{Num: val}
+				if dst == v {
+					g.add(fmt.Sprintf("%s = wr2(%s, %d);", dst, v, val))
+				} else {
+					g.setVar(dst, id, fmt.Sprintf("wr2(%s, %d)", v, val))
+				}
+			case "array-alias":
+				a, b := g.pickVar("a"), g.pickVar("b")
+				g.tmp++
+				arr := fmt.Sprintf("arr%d", g.tmp)
+				g.add(fmt.Sprintf("%s %s = [%s, %s];", KwVar, arr, a, b))
+				idx := s.Int("idx", 0, 1)
+				tgt := []string{a, b}[idx]
+				k := Pick(s, "key", c12Keys)
+				val := g.val()
+				g.add(fmt.Sprintf("%s[%d].%s = %d;", arr, idx, k, val))
+				g.heap[g.vars[tgt]][k] = C12Val{Num: val}
+			case "child", "child2":
+				p, c := g.pickVar("parent"), g.pickVar("childv")
+				pid, cid := g.vars[p], g.vars[c]
+				if g.reaches(cid, pid) {
+					opName = "noop"
+					g.add("// would create a cycle")
+					break
+				}
+				g.add(fmt.Sprintf("%s.%s = %s;", p, kind, c))
+				g.heap[pid][kind] = C12Val{Ref: cid}
+			case "child-write":
+				// write through a child reference if some object has one
+				var cands []string
+				for _, v := range g.order {
+					for _, ck := range sortedKeys(g.heap[g.vars[v]]) {
+						if g.heap[g.vars[v]][ck].Ref > 0 {
+							cands = append(cands, v+"."+ck)
+						}
+					}
+				}
+				if len(cands) == 0 {
+					opName = "noop"
+					g.add("// no child to write through")
+					break
+				}
+				p := Pick(s, "parent", cands)
+				dot := strings.Index(p, ".")
+				cid := g.heap[g.vars[p[:dot]]][p[dot+1:]].Ref
+				k := Pick(s, "key", c12Keys)
+				val := g.val()
+				g.add(fmt.Sprintf("%s.%s = %d;", p, k, val))
+				g.heap[cid][k] = C12Val{Num: val}
+			case "mk-twice":
+				// the same literal evaluated twice gives independent objects
+				a, b := Pick(s, "var", varNames), Pick(s, "var2", varNames)
+				ida := g.newObj(map[string]C12Val{"alpha": {Num: 1}, "beta": {Num: 2}, "gamma": {Num: 3}})
+				g.setVar(a, ida, "mk()")
+				idb := g.newObj(map[string]C12Val{"alpha": {Num: 1}, "beta": {Num: 2}, "gamma": {Num: 3}})
+				g.setVar(b, idb, "mk()")
+				val := g.val()
+				g.add(fmt.Sprintf("%s.beta = %d;", b, val))
+				g.heap[g.vars[b]]["beta"] = C12Val{Num: val}
+			case "read":
+				// read of a present key is part of every observation; here: read through an alias expression
+				v := g.pickVar("target")
+				g.tmp++
+				g.add(fmt.Sprintf("%s rd%d = %s;", KwVar, g.tmp, v))
 			}
-			if len(cands) == 0 {
-				opName = "noop"
-				g.add("// no child to write through")
-				break
-			}
-			p := Pick(s, "parent", cands)
-			cid := g.heap[g.vars[p]]["child"].Ref
-			k := Pick(s, "key", c12Keys)
-			val := g.val()
-			g.add(fmt.Sprintf("%s.child.%s = %d;", p, k, val))
-			g.heap[cid][k] = C12Val{Num: val}
-		case "mk-twice":
-			// the same literal evaluated twice gives independent objects
-			a, b := Pick(s, "var", varNames), Pick(s, "var2", varNames)
-			ida := g.newObj(map[string]C12Val{"alpha": {Num: 1}, "beta": {Num: 2}, "gamma": {Num: 3}})
-			g.setVar(a, ida, "mk()")
-			idb := g.newObj(map[string]C12Val{"alpha": {Num: 1}, "beta": {Num: 2}, "gamma": {Num: 3}})
-			g.setVar(b, idb, "mk()")
-			val := g.val()
-			g.add(fmt.Sprintf("%s.beta = %d;", b, val))
-			g.heap[g.vars[b]]["beta"] = C12Val{Num: val}
-		case "read":
-			// read of a present key is part of every observation; here: read through an alias expression
-			v := g.pickVar("target")
-			g.add(fmt.Sprintf("%s rd%d = %s;", KwVar, g.step, v))
+			g.ops = append(g.ops, opName)
+			stepOps = append(stepOps, opName)
 		}
-		g.ops = append(g.ops, opName)
-		g.observe(opName)
+		g.observe(strings.Join(stepOps, "+"))
 	}
 	// optional terminal operation that must fail
 	if len(g.order) > 0 && Chance(s, "mustfail", 1, 3) {
@@ -427,8 +482,8 @@ func init() {
 		},
 		Components: map[string]string{
 			"lexer, parser, interpreter, object built-ins": "real code (instrumented copy)",
-			"order of every range over a Go map":            "stub (verifsimrt.Pairs, decided by the schedule)",
-			"object semantics oracle":                       "reference model (map of maps) inside the generator",
+			"order of every range over a Go map":           "stub (verifsimrt.Pairs, decided by the schedule)",
+			"object semantics oracle":                      "reference model (map of maps) inside the generator",
 		},
 		ReachTargets: []string{"fault.map_order_non_identity", "reach.keys_and_values_ranged_in_different_orders", "reach.alias_write_observed", "reach.must_fail_terminal"},
 	})
@@ -567,6 +622,17 @@ func c12CheckRun(cs *Case, ex *C12Expect, run int, o Obs) *Violation {
 			if !ok || !c12ValMatches(b.Model[k], l) {
 				return mk("read-mismatch", sig, fmt.Sprintf("step %d after %s: %s.%s reads %q, expected %s (stderr=%q)", b.Step, b.Op, b.Var, k, l, c12ValString(b.Model[k]), firstLine(o.Stderr)))
 			}
+			if child, ok := b.Deep[k]; ok {
+				for _, ck := range sortedKeys(child) {
+					if child[ck].Ref > 0 {
+						continue
+					}
+					l, ok := next()
+					if !ok || !c12ValMatches(child[ck], l) {
+						return mk("shared-reference-broken", sig, fmt.Sprintf("step %d after %s: %s.%s.%s reads %q, but the object it refers to has %s = %s (stderr=%q)", b.Step, b.Op, b.Var, k, ck, l, ck, c12ValString(child[ck]), firstLine(o.Stderr)))
+					}
+				}
+			}
 		}
 		if l, _ := next(); l != "@P" {
 			return mk("listing-malformed", sig, fmt.Sprintf("step %d %s: expected @P, got %q", b.Step, b.Var, l))
@@ -575,6 +641,16 @@ func c12CheckRun(cs *Case, ex *C12Expect, run int, o Obs) *Violation {
 		for _, k := range sortedKeys(b.Model) {
 			if !strings.Contains(whole, nfc(k)+":") {
 				return mk("print-missing-property", sig, fmt.Sprintf("step %d: printing %s shows %q, property %q is missing", b.Step, b.Var, whole, k))
+			}
+		}
+		var tk []string
+		for k := range b.Tokens {
+			tk = append(tk, k)
+		}
+		sort.Strings(tk)
+		for _, k := range tk {
+			if strings.Count(whole, nfc(k)+":") < b.Tokens[k] {
+				return mk("print-missing-property", sig, fmt.Sprintf("step %d: printing %s shows %q: property %q must appear %d times (nested objects included)", b.Step, b.Var, whole, k, b.Tokens[k]))
 			}
 		}
 		if l, _ := next(); l != "@E" {
